@@ -13,6 +13,7 @@
 //!   valid · none (no Authorization) · malformed · short (base58 of 10 bytes) · dotted (legacy) ·
 //!   nohdr (no account header) · unknown (random key) · revoked (d1) · otherbytes (d0 over other bytes) ·
 //!   otheracct (B's key, account A) · toB (A's key, account B) · denyhdr (valid for account A2 that the lists refuse) ·
+//!   dropped (d2: trusted until phase 2 cuts its Trust event off the device log by a rewinding patch) ·
 //!   bodyswap (valid signature, but the body sent differs from the one the client built: only meaningful where a body is sent)
 use crate::sync::{password, Device, Gate, Server};
 use crate::util::{kv, rt};
@@ -259,6 +260,15 @@ pub fn run(text: &str, cases_path: &str, out: &mut impl Write) {
                 let r = acc.patch_devices_unchecked(&[DeviceEvent::Trust(td)]).await;
                 writeln!(out, "{id} !setup trust_d1={}", r.is_ok()).unwrap();
             }
+            // a third one (d2): phase 2 drops it from the device log by a rewinding patch, without a Revoke event
+            let d2 = DeviceSigner::random();
+            let d2_signer = d2.signing_key().clone();
+            {
+                let mut acc = a.dev.bridge.account.lock().await;
+                let td = TrustedDevice::new(d2.public_key(), None, None);
+                let r = acc.patch_devices_unchecked(&[DeviceEvent::Trust(td)]).await;
+                writeln!(out, "{id} !setup trust_d2={}", r.is_ok()).unwrap();
+            }
             let r3 = ba.execute_sync(&SyncOptions::default()).await;
             writeln!(out, "{id} !setup sync_trust={}", r3.is_ok()).unwrap();
             // a file blob on the server for the file routes (uploaded with valid credentials below)
@@ -280,6 +290,37 @@ pub fn run(text: &str, cases_path: &str, out: &mut impl Write) {
                     let r2 = ba.execute_sync(&SyncOptions::default()).await;
                     writeln!(out, "{id} !setup revoke_d1={} sync={}", r.is_ok(), r2.is_ok()).unwrap();
                     phase_now = 1;
+                }
+                if phase >= 2 && phase_now == 1 {
+                    // a device-log patch in the form the auto merge sends: rewind to the record that trusted d1,
+                    // then append one new event.  What it cuts off: Trust(d2) and Revoke(d1).
+                    let (body, info) = {
+                        let acc = a.dev.bridge.account.lock().await;
+                        let log = acc.device_log().await.unwrap();
+                        let log = log.read().await;
+                        let leaves = log.tree().leaves().unwrap_or_default();
+                        // records: [Trust d0, Trust d1, Trust d2, Revoke d1, ...]
+                        let keep = 2usize.min(leaves.len());
+                        let mut prefix = sos_core::commit::CommitTree::new();
+                        let mut lv = leaves[..keep].to_vec();
+                        prefix.append(&mut lv);
+                        prefix.commit();
+                        let proof = prefix.head().unwrap();
+                        let commit = Some(CommitHash(leaves[keep - 1]));
+                        let td = TrustedDevice::new(DeviceSigner::random().public_key(), None, None);
+                        let mut rec = EventRecord::encode_event(&DeviceEvent::Trust(td)).await.unwrap();
+                        rec.set_last_commit(commit);
+                        let r = PatchRequest { log_type: EventLogType::Device, commit, proof, patch: vec![rec] };
+                        (r.encode().await.unwrap(), format!("log_len={} keep={keep}", leaves.len()))
+                    };
+                    let headers = vec![
+                        ("x-sos-account-id".to_string(), a.id.to_string()),
+                        ("Authorization".to_string(), format!("Bearer {}", sig_token(&a.signer, &body).await)),
+                        ("Content-Type".to_string(), "application/x-protobuf".to_string()),
+                    ];
+                    let resp = http(&addr, "PATCH", "/api/v1/sync/account/events?connection_id=c11-probe", &headers, &body).await;
+                    writeln!(out, "{id} !setup rewind_patch status={} {info}", resp.status).unwrap();
+                    phase_now = 2;
                 }
                 // the request: method, target, body, what the handler treats as signed bytes
                 let q = "?connection_id=c11-probe";
@@ -384,6 +425,10 @@ pub fn run(text: &str, cases_path: &str, out: &mut impl Write) {
                     "revoked" => {
                         headers.push(hdr_account(&a.id));
                         headers.push(("Authorization".into(), format!("Bearer {}", sig_token(&d1_signer, &signed).await)));
+                    }
+                    "dropped" => {
+                        headers.push(hdr_account(&a.id));
+                        headers.push(("Authorization".into(), format!("Bearer {}", sig_token(&d2_signer, &signed).await)));
                     }
                     "otherbytes" => {
                         headers.push(hdr_account(&a.id));
